@@ -14,6 +14,8 @@ package resolver
 // Observed: how the call ended, the delegation entry on file under the NS owner's key AT EACH ADDRESS LOOKUP (the
 // provisional entry nested lookups are routed through: zone label, hosts, server addresses), and the entries on
 // file afterwards for every name that owned an NS record in any message so far.  Model: Model.deleg_apply.
+//
+// Fixed histories first (vC07DelegFixed and corpus/C07/unit.json kind "deleg"), then generated ones.
 
 import (
 	"context"
@@ -117,42 +119,254 @@ func vC07HostOrder(hosts []string, owner vC07Name) []string {
 	return out
 }
 
-func vC07DelegCases(r *rand.Rand, cnt int, local []net.IP, emit func(map[string]any)) {
+// class of the first NS record of an authority section
+func vC07Ns0Class(ns []vC07RRSpec) uint16 {
+	for _, s := range ns {
+		if s.rrtype == dns.TypeNS {
+			return s.class
+		}
+	}
+	return 0
+}
+
+// one authority section as resolve() hands it over
+type vC07DelegEv struct {
+	auth  vC07Name
+	level int
+	rcode int
+	ns    []vC07RRSpec
+	extra []vC07RRSpec
+	hosts []string                // lower-cased hosts for which an address lookup has an answer, in generation order
+	world map[string][]vC07RRSpec // what that lookup returns (a host missing here fails to resolve)
+	okind string
+}
+
+// vC07DelegHistory runs the events on one fresh resolver and emits one case
+func vC07DelegHistory(kind string, qname vC07Name, evs []vC07DelegEv, local []net.IP, emit func(map[string]any)) {
 	localCoq := vC07CoqIPList(local)
+	res := &Resolver{cfg: &config.Config{IPv6Access: false}, glueV4: cache.New(1024), glueV6: cache.New(1024), delegations: authority.NewCache()}
+	dq := &vC07DelegQueryer{}
+	var qr middleware.Queryer = dq
+	res.queryer.Store(&qr)
+	var evCoq, obsCoq []string
+	var evDesc []map[string]any
+	var probeNames []vC07Name
+	addProbe := func(n vC07Name) {
+		k := strings.ToLower(n.String())
+		for _, p := range probeNames {
+			if strings.ToLower(p.String()) == k {
+				return
+			}
+		}
+		probeNames = append(probeNames, vC07Parse(k))
+	}
+	goFail := ""
+	errcode := false
+	for _, ev := range evs {
+		auth, level, rcode, ns, extra := ev.auth, ev.level, ev.rcode, ev.ns, ev.extra
+		dq.world = map[string][]dns.RR{}
+		var ansCoq []string
+		for _, hk := range ev.hosts {
+			dq.world[hk] = vC07RRs(ev.world[hk])
+			ansCoq = append(ansCoq, fmt.Sprintf("(%s, %s)", vC07Parse(hk).coq(), vC07CoqRRs(ev.world[hk])))
+		}
+		req := new(dns.Msg)
+		req.SetQuestion(qname.String(), dns.TypeA)
+		req.CheckingDisabled = true
+		resp := new(dns.Msg)
+		resp.SetReply(req)
+		resp.Rcode = rcode
+		resp.Ns = vC07RRs(ns)
+		resp.Extra = vC07RRs(extra)
+		// the first NS record anchors the set: its owner's key is where the delegation would be filed
+		first := vC07Name(nil)
+		hostSeen := map[string]bool{}
+		var hostList []string
+		for _, s := range ns {
+			if s.rrtype != dns.TypeNS {
+				continue
+			}
+			addProbe(s.owner)
+			if first == nil {
+				first = s.owner
+			}
+			if strings.EqualFold(s.owner.String(), first.String()) && s.class == vC07Ns0Class(ns) {
+				hk := strings.ToLower(s.target.String())
+				if !hostSeen[hk] {
+					hostSeen[hk] = true
+					hostList = append(hostList, hk)
+				}
+			}
+		}
+		addProbe(auth)
+		order := vC07HostOrder(hostList, first)
+		var orderNames []vC07Name
+		for _, h := range order {
+			orderNames = append(orderNames, vC07Parse(h))
+		}
+		var snaps []*vC07DelegSnap
+		dq.asked = nil
+		dq.probe = func() {
+			if first == nil {
+				return
+			}
+			// a provisional publication needs a non-empty list: lookups that go out before the first address is
+			// known find no entry (the model lists no publication for them either)
+			if s := vC07DelegGet(res, first.String()); s != nil {
+				snaps = append(snaps, s)
+			}
+		}
+		rs := &resolveState{req: req, servers: &authority.Servers{Zone: auth.String()}, depth: 1, level: level, nomin: true, requestID: req.Id}
+		ctx, cancel := context.WithTimeout(context.Background(), 5*time.Second)
+		out, err := res.processAuthoritySection(ctx, rs, req, resp, false)
+		cancel()
+		dq.probe = nil
+		cls := 0
+		switch {
+		case errors.Is(err, errParentDetection) && out == nil:
+			cls = 1
+		case errors.Is(err, errParentDetection):
+			cls = 2
+		case errors.Is(err, errMaxDepth):
+			cls = 3
+		case errors.Is(err, errNoReachableAuth):
+			cls = 4
+		case err != nil:
+			cls = 9
+		}
+		var snapCoq, snapDesc []string
+		for _, s := range snaps {
+			snapCoq = append(snapCoq, s.coq)
+			snapDesc = append(snapDesc, s.String())
+			if !strings.EqualFold(s.zone, first.String()) {
+				goFail = fmt.Sprintf("while the addresses of its name servers were looked up, the provisional entry for %s carried the zone label %q", first, s.zone)
+			}
+		}
+		var prCoq, prDesc []string
+		for _, p := range probeNames {
+			s := vC07DelegGet(res, p.String())
+			if s == nil {
+				prCoq = append(prCoq, fmt.Sprintf("(%s, None)", p.coq()))
+				continue
+			}
+			prCoq = append(prCoq, fmt.Sprintf("(%s, Some %s)", p.coq(), s.coq))
+			prDesc = append(prDesc, p.String()+": "+s.String())
+			// Go-side oracle: the label the bailiwick tests will use is the name the entry is filed under, and that
+			// name lies on the way to the name being resolved
+			if !strings.EqualFold(s.zone, p.String()) {
+				goFail = fmt.Sprintf("the delegation entry filed under %s carries the zone label %q: replies of its servers are judged against that", p, s.zone)
+			}
+			if !vC07IsBelow(p, qname) {
+				goFail = fmt.Sprintf("a delegation for %s is on file although %s is not on the path to %s", p, p, qname)
+			}
+		}
+		if cls == 3 && first != nil {
+			if s := vC07DelegGet(res, first.String()); s != nil && (!vC07IsBelow(auth, first) || len(first) <= len(auth)) {
+				goFail = fmt.Sprintf("a referral for %s sent by the servers of %s (rcode %s) was followed", first, auth, dns.RcodeToString[rcode])
+			}
+		}
+		m := vC07Attack{rcode: rcode, ns: ns, extra: extra}
+		evCoq = append(evCoq, fmt.Sprintf("DelegMsg %s %d (mk_q %s 1 1) %s %s [%s]", auth.coq(), level, qname.coq(), m.coq(), vC07CoqNames(orderNames), strings.Join(ansCoq, ";")))
+		obsCoq = append(obsCoq, fmt.Sprintf("(%d, [%s], [%s])", cls, strings.Join(snapCoq, ";"), strings.Join(prCoq, ";")))
+		evDesc = append(evDesc, map[string]any{"asked_zone": auth.String(), "level": level, "qname": qname.String(), "rcode": dns.RcodeToString[rcode],
+			"authority": vC07DescRRs(ns), "additional": vC07DescRRs(extra), "owner_kind": ev.okind, "address_lookups": dq.asked,
+			"ended": []string{"authority()", "referral rejected", "parent detection", "continued (errMaxDepth at depth 1)", "no reachable server", "", "", "", "", "other error: " + fmt.Sprint(err)}[cls],
+			"provisional_entries_seen": snapDesc, "on_file_afterwards": prDesc})
+		if rcode != 0 {
+			errcode = true
+		}
+	}
+	// where would later resolutions start?  the real searchCache on the cache this history left behind
+	var sCoq, sDesc []string
+	searchNames := []vC07Name{qname, append(vC07Name{"zz"}, qname...), vC07Parse("www.victim.com.")}
+	for _, p := range probeNames {
+		searchNames = append(searchNames, p, append(vC07Name{"deep", "er"}, p...), vC07CaseMix(rand.New(rand.NewSource(int64(len(p.String())))), append(vC07Name{"m"}, p...)))
+	}
+	if len(searchNames) > 9 {
+		searchNames = searchNames[:9]
+	}
+	for i, n := range searchNames {
+		if len(n) == 0 {
+			continue
+		}
+		ds := i%3 == 1
+		qt := dns.TypeA
+		if ds {
+			qt = dns.TypeDS
+		}
+		mt := res.searchCache(dns.Question{Name: n.String(), Qtype: qt, Qclass: dns.ClassINET}, true, n.String())
+		zc := "None"
+		zd := "root servers"
+		if mt.servers != nil {
+			zc = "(Some " + vC07Parse(mt.servers.Zone).coq() + ")"
+			zd = fmt.Sprintf("zone label %q", mt.servers.Zone)
+			if !vC07IsBelow(vC07Parse(mt.servers.Zone), n) {
+				goFail = fmt.Sprintf("a resolution of %s would start at servers labelled %q: their replies would be judged against a zone that does not enclose the name", n, mt.servers.Zone)
+			}
+		}
+		sCoq = append(sCoq, fmt.Sprintf("(%s, %v, %s, %d%%nat)", n.coq(), ds, zc, mt.level))
+		sDesc = append(sDesc, fmt.Sprintf("%s %s -> %s, level %d", n, dns.TypeToString[qt], zd, mt.level))
+	}
+	if errcode {
+		kind += "-errcode"
+	}
+	emit(map[string]any{
+		"k":          fmt.Sprintf("%s-%d", kind, len(evs)),
+		"coq":        fmt.Sprintf("CaseDelegHist %s [%s] [%s] [%s]", localCoq, strings.Join(evCoq, ";"), strings.Join(obsCoq, ";"), strings.Join(sCoq, ";")),
+		"nontrivial": true, "go_fail": goFail,
+		"desc": map[string]any{"events": evDesc, "search_cache_afterwards": sDesc},
+	})
+}
+
+// fixed histories: a two-host referral (one host with glue, one looked up: a provisional publication is seen), then a
+// sideways / self / sibling NS set with glue inside the sender's zone under every response code
+func vC07DelegFixed(local []net.IP, emit func(map[string]any)) {
+	in := uint16(dns.ClassINET)
+	qname := vC07Parse("x.sub.attacker.com.")
+	ns := func(owner, host string) vC07RRSpec {
+		return vC07RRSpec{owner: vC07Parse(owner), rrtype: dns.TypeNS, class: in, ttl: 300, target: vC07Parse(host)}
+	}
+	a := func(owner string, ip ...byte) vC07RRSpec {
+		return vC07RRSpec{owner: vC07Parse(owner), rrtype: dns.TypeA, class: in, ttl: 300, ip: ip}
+	}
+	down := vC07DelegEv{auth: vC07Parse("attacker.com."), level: 2, rcode: 0, okind: "between",
+		ns:    []vC07RRSpec{ns("sub.attacker.com.", "ns1.sub.attacker.com."), ns("sub.attacker.com.", "ns2.sub.attacker.com."), ns("Sub.Attacker.com.", "ns3.sub.attacker.com.")},
+		extra: []vC07RRSpec{a("ns1.sub.attacker.com.", 198, 51, 100, 1)},
+		hosts: []string{"ns2.sub.attacker.com.", "ns3.sub.attacker.com."},
+		world: map[string][]vC07RRSpec{"ns2.sub.attacker.com.": {a("ns2.sub.attacker.com.", 198, 51, 100, 2)}, "ns3.sub.attacker.com.": {a("ns3.sub.attacker.com.", 198, 51, 100, 3)}}}
+	for _, rc := range []int{dns.RcodeSuccess, dns.RcodeNameError, dns.RcodeServerFailure, dns.RcodeRefused, dns.RcodeFormatError, dns.RcodeNotImplemented, dns.RcodeYXDomain} {
+		for i, owner := range []string{"victim.com.", "attacker.com.", "com.", "other.attacker.com.", "sub.attacker.com."} {
+			bad := vC07DelegEv{auth: vC07Parse("attacker.com."), level: 2, rcode: rc, okind: []string{"sideways", "self", "upward", "cousin", "valid"}[i],
+				ns:    []vC07RRSpec{ns(owner, "ns.attacker.com.")},
+				extra: []vC07RRSpec{a("ns.attacker.com.", 203, 0, 113, 66)}}
+			evs := []vC07DelegEv{bad}
+			if i%2 == 0 {
+				evs = []vC07DelegEv{down, bad}
+			}
+			vC07DelegHistory("deleg-fixed", qname, evs, local, emit)
+		}
+	}
+}
+
+func vC07DelegCases(r *rand.Rand, cnt int, local []net.IP, emit func(map[string]any)) {
+	vC07DelegFixed(local, emit)
 	gen := vC07NewIPGen(local)
 	plain := [][]byte{{198, 51, 100, 1}, {198, 51, 100, 2}, {203, 0, 113, 5}, {6, 6, 6, 6}}
 	rcodes := []int{dns.RcodeSuccess, dns.RcodeSuccess, dns.RcodeNameError, dns.RcodeNameError, dns.RcodeServerFailure,
 		dns.RcodeRefused, dns.RcodeFormatError, dns.RcodeNotImplemented, dns.RcodeYXDomain, dns.RcodeNotAuth}
 	for c := 0; c < cnt; c++ {
-		res := &Resolver{cfg: &config.Config{IPv6Access: false}, glueV4: cache.New(1024), glueV6: cache.New(1024), delegations: authority.NewCache()}
-		dq := &vC07DelegQueryer{}
-		var qr middleware.Queryer = dq
-		res.queryer.Store(&qr)
 		qname := vC07RandQName(r)
 		for len(qname) < 2 {
 			qname = vC07RandQName(r)
 		}
 		steps := 1 + r.Intn(3)
-		var evCoq, obsCoq []string
-		var evDesc []map[string]any
-		var probeNames []vC07Name
-		addProbe := func(n vC07Name) {
-			k := strings.ToLower(n.String())
-			for _, p := range probeNames {
-				if strings.ToLower(p.String()) == k {
-					return
-				}
-			}
-			probeNames = append(probeNames, vC07Parse(k))
-		}
-		goFail := ""
 		var owners []vC07Name // NS owners of earlier events (to meet the cached branch)
-		kind := "deleg"
+		var evs []vC07DelegEv
 		for e := 0; e < steps; e++ {
 			// the zone whose servers answer: an ancestor of qname (as searchCache guarantees), now and then something else
 			k := r.Intn(len(qname))
 			auth := append(vC07Name{}, qname[len(qname)-k:]...)
-			if r.Intn(10) == 0 {
+			if r.Intn(16) == 0 {
 				auth, _ = vC07Relative(r, qname)
 			}
 			level := len(auth)
@@ -166,14 +380,14 @@ func vC07DelegCases(r *rand.Rand, cnt int, local []net.IP, emit func(map[string]
 			var owner vC07Name
 			okind := ""
 			switch x := r.Intn(20); {
-			case x < 10 && len(qname) > len(auth) && vC07IsBelow(auth, qname):
+			case x < 12 && len(qname) > len(auth) && vC07IsBelow(auth, qname):
 				kk := len(auth) + 1 + r.Intn(len(qname)-len(auth))
 				owner, okind = append(vC07Name{}, qname[len(qname)-kk:]...), "between"
-			case x < 12:
+			case x < 13:
 				owner, okind = append(vC07Name{}, auth...), "self"
-			case x < 14 && len(owners) > 0:
+			case x < 15 && len(owners) > 0:
 				owner, okind = owners[r.Intn(len(owners))], "again"
-			case x < 16 && len(auth) > 0:
+			case x < 17 && len(auth) > 0:
 				// a sibling of the asked zone, or a cousin below it off the path
 				owner, okind = append(vC07Name{"victim"}, auth[1:]...), "sideways"
 				if r.Intn(2) == 0 {
@@ -185,8 +399,7 @@ func vC07DelegCases(r *rand.Rand, cnt int, local []net.IP, emit func(map[string]
 			if r.Intn(5) == 0 {
 				owner = vC07CaseMix(r, owner)
 			}
-			rcode := rcodes[r.Intn(len(rcodes))]
-			var ns []vC07RRSpec
+			ev := vC07DelegEv{auth: auth, level: level, rcode: rcodes[r.Intn(len(rcodes))], okind: okind, world: map[string][]vC07RRSpec{}}
 			var hostNames []vC07Name
 			for i, nn := 0, 1+r.Intn(3); i < nn; i++ {
 				s := vC07RRSpec{owner: owner, rrtype: dns.TypeNS, class: dns.ClassINET, ttl: uint32(120 + r.Intn(3000))}
@@ -198,7 +411,7 @@ func vC07DelegCases(r *rand.Rand, cnt int, local []net.IP, emit func(map[string]
 				default:
 					s.target = append(vC07Name{[]string{"ns1", "ns2", "NS3", "a"}[r.Intn(4)]}, owner...)
 				}
-				switch r.Intn(14) {
+				switch r.Intn(30) {
 				case 0:
 					s.owner, _ = vC07Relative(r, qname) // mixed owner
 				case 1:
@@ -206,19 +419,18 @@ func vC07DelegCases(r *rand.Rand, cnt int, local []net.IP, emit func(map[string]
 				case 2:
 					s.owner = vC07CaseMix(r, owner)
 				}
-				ns = append(ns, s)
+				ev.ns = append(ev.ns, s)
 				hostNames = append(hostNames, s.target)
 			}
 			if r.Intn(12) == 0 {
 				s := vC07RRSpec{owner: auth, rrtype: dns.TypeSOA, class: dns.ClassINET, ttl: 60}
-				pos := r.Intn(len(ns) + 1)
-				ns = append(ns[:pos], append([]vC07RRSpec{s}, ns[pos:]...)...)
+				pos := r.Intn(len(ev.ns) + 1)
+				ev.ns = append(ev.ns[:pos], append([]vC07RRSpec{s}, ev.ns[pos:]...)...)
 			}
 			if r.Intn(10) == 0 {
-				ns = append(ns, vC07RRSpec{owner: owner, rrtype: dns.TypeDS, class: dns.ClassINET, ttl: 60})
+				ev.ns = append(ev.ns, vC07RRSpec{owner: owner, rrtype: dns.TypeDS, class: dns.ClassINET, ttl: 60})
 			}
 			// glue: for some hosts, mostly usable addresses; now and then hostile glue for another name
-			var extra []vC07RRSpec
 			for _, h := range hostNames {
 				if r.Intn(2) == 0 {
 					continue
@@ -230,22 +442,18 @@ func vC07DelegCases(r *rand.Rand, cnt int, local []net.IP, emit func(map[string]
 				if r.Intn(4) == 0 {
 					sp.owner = vC07CaseMix(r, h)
 				}
-				extra = append(extra, sp)
+				ev.extra = append(ev.extra, sp)
 			}
 			if r.Intn(4) == 0 {
 				o, _ := vC07Relative(r, qname)
-				extra = append(extra, vC07RRSpec{owner: append(vC07Name{"ns"}, o...), rrtype: dns.TypeA, class: dns.ClassINET, ttl: 60, ip: []byte{192, 0, 2, 99}})
+				ev.extra = append(ev.extra, vC07RRSpec{owner: append(vC07Name{"ns"}, o...), rrtype: dns.TypeA, class: dns.ClassINET, ttl: 60, ip: []byte{192, 0, 2, 99}})
 			}
 			// what address lookups return
-			dq.world = map[string][]dns.RR{}
-			var ansCoq []string
-			seenHost := map[string]bool{}
 			for _, h := range hostNames {
 				hk := strings.ToLower(h.String())
-				if seenHost[hk] || r.Intn(3) == 0 {
+				if _, dup := ev.world[hk]; dup || r.Intn(3) == 0 {
 					continue
 				}
-				seenHost[hk] = true
 				var recs []vC07RRSpec
 				for i, na := 0, 1+r.Intn(2); i < na; i++ {
 					sp := vC07RRSpec{owner: vC07Parse(hk), rrtype: dns.TypeA, class: dns.ClassINET, ttl: 60, ip: plain[r.Intn(len(plain))]}
@@ -254,138 +462,15 @@ func vC07DelegCases(r *rand.Rand, cnt int, local []net.IP, emit func(map[string]
 					}
 					recs = append(recs, sp)
 				}
-				dq.world[hk] = vC07RRs(recs)
-				ansCoq = append(ansCoq, fmt.Sprintf("(%s, %s)", vC07Parse(hk).coq(), vC07CoqRRs(recs)))
+				ev.world[hk] = recs
+				ev.hosts = append(ev.hosts, hk)
 			}
-
-			req := new(dns.Msg)
-			req.SetQuestion(qname.String(), dns.TypeA)
-			req.CheckingDisabled = true
-			resp := new(dns.Msg)
-			resp.SetReply(req)
-			resp.Rcode = rcode
-			resp.Ns = vC07RRs(ns)
-			resp.Extra = vC07RRs(extra)
-			// the first NS record anchors the set: its owner's key is where the delegation would be filed
-			first := vC07Name(nil)
-			hostSet := map[string]bool{}
-			var hostList []string
-			for _, s := range ns {
-				if s.rrtype != dns.TypeNS {
-					continue
-				}
-				addProbe(s.owner)
-				if first == nil {
-					first = s.owner
-				}
-				if strings.EqualFold(s.owner.String(), first.String()) && s.class == vC07Ns0Class(ns) {
-					hk := strings.ToLower(s.target.String())
-					if !hostSet[hk] {
-						hostSet[hk] = true
-						hostList = append(hostList, hk)
-					}
-				}
-			}
-			addProbe(auth)
-			order := vC07HostOrder(hostList, first)
-			var orderNames []vC07Name
-			for _, h := range order {
-				orderNames = append(orderNames, vC07Parse(h))
-			}
-			var snaps []*vC07DelegSnap
-			dq.asked = nil
-			dq.probe = func() {
-				if s := vC07DelegGet(res, first.String()); s != nil {
-					snaps = append(snaps, s)
-				} else {
-					snaps = append(snaps, &vC07DelegSnap{zone: "<no entry>", coq: "(mk_de [[0]] [] [])"})
-				}
-			}
-			rs := &resolveState{req: req, servers: &authority.Servers{Zone: auth.String()}, depth: 1, level: level, nomin: true, requestID: req.Id}
-			ctx, cancel := context.WithTimeout(context.Background(), 5*time.Second)
-			out, err := res.processAuthoritySection(ctx, rs, req, resp, false)
-			cancel()
-			dq.probe = nil
-			cls := 0
-			switch {
-			case errors.Is(err, errParentDetection) && out == nil:
-				cls = 1
-			case errors.Is(err, errParentDetection):
-				cls = 2
-			case errors.Is(err, errMaxDepth):
-				cls = 3
-			case errors.Is(err, errNoReachableAuth):
-				cls = 4
-			case err != nil:
-				cls = 9
-			}
-			// a provisional publication needs a non-empty list, so the lookups that went out before the first
-			// address was known see no entry: those are not publications (the model lists none for them)
-			var snapCoq, snapDesc []string
-			for _, s := range snaps {
-				if s.zone == "<no entry>" {
-					continue
-				}
-				snapCoq = append(snapCoq, s.coq)
-				snapDesc = append(snapDesc, s.String())
-			}
-			var prCoq, prDesc []string
-			for _, p := range probeNames {
-				s := vC07DelegGet(res, p.String())
-				if s == nil {
-					prCoq = append(prCoq, fmt.Sprintf("(%s, None)", p.coq()))
-					continue
-				}
-				prCoq = append(prCoq, fmt.Sprintf("(%s, Some %s)", p.coq(), s.coq))
-				prDesc = append(prDesc, p.String()+": "+s.String())
-				// Go-side oracle: the label the bailiwick tests will use is the name the entry is filed under, and that
-				// name lies strictly below a zone whose servers were asked, on the way to the name being resolved
-				if !strings.EqualFold(s.zone, p.String()) {
-					goFail = fmt.Sprintf("the delegation entry filed under %s carries the zone label %q: replies of its servers are judged against that", p, s.zone)
-				}
-				if !vC07IsBelow(p, qname) {
-					goFail = fmt.Sprintf("a delegation for %s is on file although %s is not on the path to %s", p, p, qname)
-				}
-			}
-			for _, s := range snaps {
-				if s.zone != "<no entry>" && !strings.EqualFold(s.zone, first.String()) {
-					goFail = fmt.Sprintf("while the addresses of its name servers were looked up, the provisional entry for %s carried the zone label %q", first, s.zone)
-				}
-			}
-			if cls == 3 {
-				if s := vC07DelegGet(res, first.String()); s != nil && (!vC07IsBelow(auth, first) || len(first) <= len(auth)) {
-					goFail = fmt.Sprintf("a referral for %s sent by the servers of %s (rcode %s) was followed", first, auth, dns.RcodeToString[rcode])
-				}
-			}
-			m := vC07Attack{rcode: rcode, ns: ns, extra: extra}
-			evCoq = append(evCoq, fmt.Sprintf("DelegMsg %s %d (mk_q %s 1 1) %s %s [%s]", auth.coq(), level, qname.coq(), m.coq(), vC07CoqNames(orderNames), strings.Join(ansCoq, ";")))
-			obsCoq = append(obsCoq, fmt.Sprintf("(%d, [%s], [%s])", cls, strings.Join(snapCoq, ";"), strings.Join(prCoq, ";")))
-			evDesc = append(evDesc, map[string]any{"asked_zone": auth.String(), "level": level, "qname": qname.String(), "rcode": dns.RcodeToString[rcode],
-				"authority": vC07DescRRs(ns), "additional": vC07DescRRs(extra), "owner_kind": okind, "address_lookups": dq.asked,
-				"ended": []string{"authority()", "referral rejected", "parent detection", "continued (errMaxDepth at depth 1)", "no reachable server", "", "", "", "", "other error: " + fmt.Sprint(err)}[cls],
-				"provisional_entries_seen": snapDesc, "on_file_afterwards": prDesc})
-			if cls == 3 {
-				owners = append(owners, first)
-			}
-			if rcode != 0 {
-				kind = "deleg-errcode"
+			evs = append(evs, ev)
+			// an owner that may have been stored: offered again later to meet the cached branch
+			if okind == "between" {
+				owners = append(owners, owner)
 			}
 		}
-		emit(map[string]any{
-			"k":          fmt.Sprintf("%s-%d", kind, steps),
-			"coq":        fmt.Sprintf("CaseDelegHist %s [%s] [%s]", localCoq, strings.Join(evCoq, ";"), strings.Join(obsCoq, ";")),
-			"nontrivial": true, "go_fail": goFail,
-			"desc": map[string]any{"events": evDesc},
-		})
+		vC07DelegHistory("deleg", qname, evs, local, emit)
 	}
-}
-
-// class of the first NS record of an authority section
-func vC07Ns0Class(ns []vC07RRSpec) uint16 {
-	for _, s := range ns {
-		if s.rrtype == dns.TypeNS {
-			return s.class
-		}
-	}
-	return 0
 }
